@@ -27,6 +27,10 @@ DEFAULTS = [
     (K("NULL"), "NULL"), (T("TRUE"), "TRUE"), (T("false"), "false"), (T("3.14"), "3.14"),
     (T("-1"), "-1"), (T("CURRENT_TIMESTAMP"), "CURRENT_TIMESTAMP"), (T("now()"), "now()"),
     (N("007"), 7), (L("'0'"), "'0'"), (L("'x y z'"), "'x y z'"),
+    # parenthesised forms (the parentheses are not part of the reported value)
+    (paren(L("'N'")), "'N'"), (paren(L("''")), "''"), (paren(L("'a b'")), "'a b'"), (paren(N(0)), 0), (paren(N(15)), 15),
+    (paren(T("now()")), "now()"), (paren(T("NULL")), "NULL"), (paren(T("-1")), "-1"), (paren(T("1.5")), "1.5"), (T("+5"), "+5"),
+    (paren(T("getdate()")), "getdate()"),
 ]
 
 ACTIONS = [None, "CASCADE", "RESTRICT", "cascade", "Restrict"]
